@@ -868,7 +868,7 @@ def run(ctx):
     prog, info = e2run.lower(files, ["verifE3_NDStream"], scale=scale)
     ctx.log("lowered: %s (%.1fs)" % (info["msg"], time.time() - t0))
     side_conditions(ctx, prog)
-    Lmax = 8 if ctx.tier == "quick" else 10
+    Lmax = 8 if ctx.tier == "quick" else 9        # 10 measured: 24 min on a loaded 16-core machine (660k reader paths)
     Cmax = 4 if ctx.tier == "quick" else 6
     only = ctx.only
     if not only or any(o in only for o in ("Q2.partition", "Q2.lf", "Q2.blank", "Q2.data")):
